@@ -1,0 +1,233 @@
+//go:build verif
+
+package isaacstates
+
+import (
+	"fmt"
+	"sync/atomic"
+	"time"
+
+	"github.com/spikeekips/mitum/base"
+	"github.com/spikeekips/mitum/isaac"
+	"github.com/spikeekips/mitum/util"
+)
+
+// Verification hook (build tag "verif" only). Nothing of the state machine is
+// implemented here: the stub handlers forward every call they receive from
+// States to the given script and hand back whatever the script answers; the
+// other accessors are passthroughs to unexported constructors and methods.
+
+// VerifAllStates lists the seven node states.
+var VerifAllStates = []StateType{
+	StateStopped, StateBooting, StateJoining, StateConsensus, StateSyncing, StateHandover, StateBroken,
+}
+
+// VerifSwitchContextInfo describes a switch context handed to a handler.
+type VerifSwitchContextInfo struct {
+	From StateType
+	Next StateType
+	Kind string // Go type of the context
+	ID   uint64 // id of a VerifSwitchContext; 0 for contexts made by States itself
+	Nil  bool
+}
+
+// VerifStubScript decides the outcome of every handler call and sees them all.
+// handler is the state of the called handler, instance is a serial number of
+// the handler object (a new one is made for every switch).
+type VerifStubScript interface {
+	OnState(handler StateType, instance uint64)
+	OnEnter(handler StateType, instance uint64, from StateType, sctx VerifSwitchContextInfo) (func(), error)
+	OnExit(handler StateType, instance uint64, sctx VerifSwitchContextInfo) (func(), error)
+	OnNewVoteproof(handler StateType, instance uint64, vp base.Voteproof) error
+	OnSetAllowConsensus(handler StateType, instance uint64, allow bool)
+}
+
+// VerifSwitchContext is a switch context which carries an id.
+type VerifSwitchContext struct {
+	baseSwitchContext
+	id uint64
+}
+
+func NewVerifSwitchContext(from, next StateType, id uint64) VerifSwitchContext {
+	return VerifSwitchContext{baseSwitchContext: newBaseSwitchContext(from, next), id: id}
+}
+
+func (s VerifSwitchContext) ID() uint64      { return s.id }
+func (s VerifSwitchContext) From() StateType { return s.from() }
+func (s VerifSwitchContext) Next() StateType { return s.next() }
+
+// VerifVoteproofSwitchContext additionally carries a voteproof, like the
+// joining, consensus, syncing and handover contexts do.
+type VerifVoteproofSwitchContext struct {
+	vp base.Voteproof
+	VerifSwitchContext
+}
+
+func NewVerifVoteproofSwitchContext(from, next StateType, id uint64, vp base.Voteproof) VerifVoteproofSwitchContext {
+	return VerifVoteproofSwitchContext{VerifSwitchContext: NewVerifSwitchContext(from, next, id), vp: vp}
+}
+
+func (s VerifVoteproofSwitchContext) voteproof() base.Voteproof { return s.vp }
+
+func verifSwitchContextInfo(sctx switchContext) VerifSwitchContextInfo {
+	if sctx == nil {
+		return VerifSwitchContextInfo{Nil: true}
+	}
+
+	info := VerifSwitchContextInfo{From: sctx.from(), Next: sctx.next(), Kind: fmt.Sprintf("%T", sctx)}
+
+	switch t := sctx.(type) {
+	case VerifSwitchContext:
+		info.ID = t.id
+	case VerifVoteproofSwitchContext:
+		info.ID = t.id
+	}
+
+	return info
+}
+
+type verifStubNewHandler struct {
+	script VerifStubScript
+	serial *atomic.Uint64
+	stt    StateType
+}
+
+func (h verifStubNewHandler) new() (handler, error) {
+	return &verifStubHandler{stt: h.stt, script: h.script, instance: h.serial.Add(1)}, nil
+}
+
+func (verifStubNewHandler) setStates(*States) {}
+
+type verifStubHandler struct {
+	script   VerifStubScript
+	stt      StateType
+	instance uint64
+}
+
+func (h *verifStubHandler) state() StateType {
+	h.script.OnState(h.stt, h.instance)
+
+	return h.stt
+}
+
+func (h *verifStubHandler) enter(from StateType, sctx switchContext) (func(), error) {
+	return h.script.OnEnter(h.stt, h.instance, from, verifSwitchContextInfo(sctx))
+}
+
+func (h *verifStubHandler) exit(sctx switchContext) (func(), error) {
+	return h.script.OnExit(h.stt, h.instance, verifSwitchContextInfo(sctx))
+}
+
+func (h *verifStubHandler) newVoteproof(vp base.Voteproof) error {
+	return h.script.OnNewVoteproof(h.stt, h.instance, vp)
+}
+
+func (*verifStubHandler) allowedConsensus() bool { return false }
+
+func (h *verifStubHandler) whenSetAllowConsensus(allow bool) {
+	h.script.OnSetAllowConsensus(h.stt, h.instance, allow)
+}
+
+// VerifSetStubHandlers registers stub handlers for all seven states.
+func (st *States) VerifSetStubHandlers(script VerifStubScript) *States {
+	serial := &atomic.Uint64{}
+
+	for _, s := range VerifAllStates {
+		_ = st.SetHandler(s, verifStubNewHandler{stt: s, script: script, serial: serial})
+	}
+
+	return st
+}
+
+// VerifMimicBallotFunc returns the function States registers in the ballotbox
+// for incoming ballots.
+func (st *States) VerifMimicBallotFunc() func(base.Ballot) {
+	return st.mimicBallotFunc()
+}
+
+// VerifBallotHandlerArgs are the settable functions of baseBallotHandlerArgs.
+type VerifBallotHandlerArgs struct {
+	ProposalSelectFunc         isaac.ProposalSelectFunc
+	NodeInConsensusNodesFunc   isaac.NodeInConsensusNodesFunc
+	VoteFunc                   func(base.Ballot) (bool, error)
+	SuffrageVotingFindFunc     SuffrageVotingFindFunc
+	WaitPreparingINITBallot    func() time.Duration
+	MinWaitNextBlockINITBallot func() time.Duration
+}
+
+// VerifBallotHandler is the ballot making and broadcasting part shared by the
+// joining, consensus and handover handlers (baseBallotHandler), attached to
+// States the way SetHandler attaches a handler type.
+type VerifBallotHandler struct {
+	h *baseBallotHandler
+}
+
+func (st *States) VerifNewBallotHandler(state StateType, a VerifBallotHandlerArgs) (*VerifBallotHandler, error) {
+	args := newBaseBallotHandlerArgs()
+	args.ProposalSelectFunc = a.ProposalSelectFunc
+	args.NodeInConsensusNodesFunc = a.NodeInConsensusNodesFunc
+	args.VoteFunc = a.VoteFunc
+	args.SuffrageVotingFindFunc = a.SuffrageVotingFindFunc
+
+	if a.WaitPreparingINITBallot != nil {
+		args.WaitPreparingINITBallot = a.WaitPreparingINITBallot
+	}
+
+	if a.MinWaitNextBlockINITBallot != nil {
+		args.MinWaitNextBlockINITBallot = a.MinWaitNextBlockINITBallot
+	}
+
+	ht := newBaseBallotHandlerType(state, st.networkID, st.local, &args)
+	ht.setStates(st)
+
+	h := ht.new()
+	if _, err := h.enter(StateEmpty, nil); err != nil {
+		return nil, err
+	}
+
+	return &VerifBallotHandler{h: &h}, nil
+}
+
+func (v *VerifBallotHandler) PrepareACCEPTBallot(ivp base.INITVoteproof, newBlock util.Hash, wait time.Duration) error {
+	return v.h.defaultPrepareACCEPTBallot(ivp, newBlock, wait, nil)
+}
+
+func (v *VerifBallotHandler) PrepareNextBlockBallot(avp base.ACCEPTVoteproof, suf base.Suffrage, wait time.Duration) error {
+	return v.h.defaultPrepareNextBlockBallot(avp, suf, wait)
+}
+
+func (v *VerifBallotHandler) PrepareNextRoundBallot(
+	vp base.Voteproof, previousBlock util.Hash, suf base.Suffrage, wait time.Duration,
+) error {
+	return v.h.defaultPrepareNextRoundBallot(vp, previousBlock, suf, wait)
+}
+
+func (v *VerifBallotHandler) PrepareSuffrageConfirmBallot(vp base.Voteproof) {
+	v.h.defaultPrepareSuffrageConfirmBallot(vp)
+}
+
+// StopTimers stops the ballot broadcast timers (what the syncing and broken
+// handlers do when they are entered).
+func (v *VerifBallotHandler) StopTimers() error {
+	return v.h.bbt.StopTimers()
+}
+
+func (v *VerifBallotHandler) Exit() {
+	_, _ = v.h.exit(nil)
+}
+
+// VerifDrainSwitchRequests receives the switch requests which AskMoveState
+// queued (one blocked goroutine each) and nobody will read any more because
+// the states loop has already returned; it reports how many there were.
+func (st *States) VerifDrainSwitchRequests() int {
+	var n int
+
+	for {
+		select {
+		case <-st.statech:
+			n++
+		case <-time.After(time.Millisecond):
+			return n
+		}
+	}
+}
